@@ -550,11 +550,7 @@ def _worker(job):
         print("patch_pypdf_fallback_aes() returned False (pypdf is not on its fallback crypto provider)", file=sys.stderr)
         return 4
     import pypdf._crypt_providers._fallback as fb
-    import pypdf._encryption as penc
-    if penc.CryptAES is not fb.CryptAES:
-        print("pypdf._encryption.CryptAES is not the patched class", file=sys.stderr)
-        return 4
-    CryptAES = fb.CryptAES
+    CryptAES = fb.CryptAES          # the class whose encrypt / decrypt the patch replaced
     rec.install()
 
     # ---- key pool: related keys (shared prefixes / suffixes, same bytes at other lengths), reused keys
